@@ -217,6 +217,52 @@ static void check_case(vg::Src& s, vh::Ctx& c)
                 c.fail("not-linear", "node " + std::to_string(i) + ": erode(a u + b v) = " + vg::fmt(ec[i]) + " but a erode(u) + b erode(v) = " + vg::fmt(static_cast<double>(want)));
         }
     }
+    // the same eroder object re-used with another diffusivity (scalar <-> array) and field:
+    // precomputed factors and scratch arrays must not leak from the previous step
+    bool reused = false;
+    if (s.chance(110))
+    {
+        reused = true;
+        bool new_array = kcls == 0 ? true : s.coin();
+        double ks2 = std::pow(10.0, static_cast<int>(s.range(0, 8)) - 4) * (0.5 + s.unit());
+        std::vector<double> K2(n, ks2);
+        if (new_array)
+        {
+            double contrast = static_cast<double>(s.range(0, 4));
+            for (size_t i = 0; i < n; ++i)
+                K2[i] = ks2 * std::pow(10.0, contrast * static_cast<double>(s.u8()) / 255.0);
+            ero->set_k_array(K2);
+        }
+        else
+            ero->set_k_scalar(ks2);
+        std::vector<double> z2 = vg::gen_field(s, m, nullptr, true);
+        for (auto& v : z2)
+            v *= zs;
+        double dt2 = s.coin() ? dt : std::pow(10.0, static_cast<int>(s.range(0, 9)) - 4) * (0.5 + s.unit());
+        auto e2 = ero->erode(z2, dt2);
+        auto ref2 = model_adi(nr, nc, dy, dx, z2, K2, dt2);
+        LD zmax2 = 0, kmax2 = 0, kmin2 = 1e300L;
+        for (auto v : z2)
+            zmax2 = std::max<LD>(zmax2, fabsl(v));
+        for (auto v : K2)
+        {
+            kmax2 = std::max<LD>(kmax2, v);
+            kmin2 = std::min<LD>(kmin2, v);
+        }
+        LD amp2 = 1 + 4 * fc * kmax2 * dt2 / (1 + 4 * fr * kmin2 * dt2) + 4 * fr * kmax2 * dt2 / (1 + 4 * fc * kmin2 * dt2);
+        LD tol2 = 1000 * static_cast<LD>(DBL_EPSILON) * zmax2 * amp2 + 1e-300L;
+        for (size_t r = 0; r < nr; ++r)
+            for (size_t cc = 0; cc < nc; ++cc)
+            {
+                size_t i = r * nc + cc;
+                bool border = r == 0 || cc == 0 || r + 1 == nr || cc + 1 == nc;
+                LD want = border ? 0 : static_cast<LD>(z2[i]) - ref2[i];
+                if (border ? e2[i] != 0.0 : !(fabsl(static_cast<LD>(e2[i]) - want) <= tol2))
+                    c.fail("reused-eroder-differs-from-adi", "second step on the same eroder (K " + std::string(new_array ? "array" : "scalar") + "), node (" + std::to_string(r) + "," + std::to_string(cc) + "): erosion " + vg::fmt(e2[i]) + " but the scheme gives " + vg::fmt(static_cast<double>(want)));
+            }
+        c.label("eroder-reused");
+    }
+    (void) reused;
     LD stiff = std::max(4 * fr * kmax * dt, 4 * fc * kmax * dt);
     c.nontrivial = (nr != nc || dy != dx) && kcls >= 2 && stiff >= 0.1L && amp <= 1e6L;
     c.label(kcls == 0 ? "K=scalar" : kcls == 1 ? "K=uniform-array" : kcls == 2 ? "K=smooth" : "K=rough");
